@@ -275,6 +275,10 @@ func c02Opts() *MatOpts {
 				// every part of the contact is written to at every node: the session's contact started as a clone of the
 				// trigger's, and anything the two still share shows as a trigger contact that differs live vs restored
 				M{"uuid": actionUUID(f, n, 5), "type": "set_contact_field", "field": M{"key": "f1", "name": "F1"}, "value": fmt.Sprintf("v_%d_%d_@node.visit_count", f, n)},
+				// ... and the same date-times again at every node, in the environment's own format and in ISO form with an
+				// offset (a value that is already there is not a change, live or restored, whatever the timezone)
+				M{"uuid": actionUUID(f, n, 11), "type": "set_contact_field", "field": M{"key": "f2", "name": "F2"}, "value": "2018-07-06T10:30:00.000000-05:00"},
+				M{"uuid": actionUUID(f, n, 12), "type": "set_contact_field", "field": M{"key": "f3", "name": "F3"}, "value": "06-07-2018 10:30"},
 				M{"uuid": actionUUID(f, n, 4), "type": "add_contact_urn", "scheme": "tel", "path": fmt.Sprintf("+1206555%d%d00", f, n)},
 				M{"uuid": actionUUID(f, n, 3), "type": "add_contact_groups", "groups": []M{{"uuid": "b7cf0d83-f1c9-411c-96fd-c511a4cfa86d", "name": "S1"}}})
 		}
@@ -290,7 +294,8 @@ func behaviourScript(b *Behaviour, src string) (*script, error) {
 	var a M
 	json.Unmarshal(data, &a)
 	a["topics"] = []M{{"uuid": "472a7a73-96cb-4736-b567-056d987cc5b4", "name": "General"}}
-	a["fields"] = []M{{"uuid": "f1b5aea6-6586-41c7-9020-1a6326cc6565", "key": "f1", "name": "F1", "type": "text"}, {"uuid": "f1b5aea6-6586-41c7-9020-1a6326cc6566", "key": "f2", "name": "F2", "type": "text"}}
+	a["fields"] = []M{{"uuid": "f1b5aea6-6586-41c7-9020-1a6326cc6565", "key": "f1", "name": "F1", "type": "text"}, {"uuid": "f1b5aea6-6586-41c7-9020-1a6326cc6566", "key": "f2", "name": "F2", "type": "text"},
+		{"uuid": "f1b5aea6-6586-41c7-9020-1a6326cc6567", "key": "f3", "name": "F3", "type": "datetime"}}
 	a["groups"] = []M{{"uuid": "b7cf0d83-f1c9-411c-96fd-c511a4cfa86d", "name": "S1"}, {"uuid": "1e1ce1e1-9288-4504-869e-022d1003c72a", "name": "S2"}}
 	adata := mustJSON(a)
 	load := func() (flows.SessionAssets, error) {
@@ -320,6 +325,10 @@ func behaviourScript(b *Behaviour, src string) (*script, error) {
 				cm["last_seen_on"] = "2018-07-01T10:00:00Z"
 				cm["fields"] = M{"f2": M{"text": "kept"}}
 				cm["groups"] = []M{{"uuid": "1e1ce1e1-9288-4504-869e-022d1003c72a", "name": "S2"}}
+			}
+			if _, has := tm["environment"]; !has {
+				// not UTC, not ISO: what is parsed and rendered depends on the environment the session carries
+				tm["environment"] = M{"date_format": "DD-MM-YYYY", "time_format": "tt:mm", "timezone": "America/Guayaquil", "allowed_languages": []string{"eng", "fra"}, "default_country": "US"}
 			}
 			sc.trigger = mustJSON(tm)
 		case "restart":
